@@ -50,6 +50,57 @@ def py_decode(bs, npiece):
     return ends, u64
 
 
+class Dec:
+    """independent byte-stream decoder (arbitrary's Unstructured: zero padding when exhausted)"""
+
+    def __init__(self, bs):
+        self.bs = bs
+        self.pos = 0
+
+    def u8(self):
+        if self.pos < len(self.bs):
+            v = self.bs[self.pos]
+            self.pos += 1
+            return v
+        return 0
+
+    def u64(self):
+        chunk = self.bs[self.pos:self.pos + 8]
+        self.pos = min(len(self.bs), self.pos + 8)
+        chunk = chunk + [0] * (8 - len(chunk))
+        return struct.unpack("<Q", bytes(chunk))[0]
+
+    def vec(self):
+        out = []
+        while self.u8() & 1:
+            out.append(self.u64())
+        return out
+
+    def piecewise(self, piece):
+        """None = error; else list of (end bits, piece)"""
+        ends = self.vec()
+        if not ends or any(not is_normal(e) for e in ends):
+            return None
+        out = []
+        for e in sorted(ends, key=lambda b: C.fl(b)):
+            p = piece()
+            if p is None:
+                return None
+            out.append((e, p))
+        return out
+
+
+def encode_nested(outer_ends, inners):
+    """inners: list of (ends, pieces) per outer end in the order the decoder draws them"""
+    out = []
+    for e in outer_ends:
+        out += [1] + bits_bytes(e)
+    out += [0]
+    for ends, pieces in inners:
+        out += encode(ends, pieces)
+    return out
+
+
 def is_normal(b):
     e = (b >> 52) & 0x7FF
     return 0 < e < 0x7FF
@@ -58,13 +109,15 @@ def is_normal(b):
 class P(Prop):
     ID = "C19"
     MODULE = "C19"
-    THEOREMS = ["C19_wellformed", "C19_evaluable", "C19_example"]
+    THEOREMS = ["C19_wellformed", "C19_evaluable", "C19_wellformed_any_piece", "C19_nested", "C19_evaluable_any_piece",
+                "C19_nested_inner_failure", "C19_example"]
     KERNELS = []
     RULE = ("byte strings of length 0..400: random, and structured encodings of end lists (normal ascending / descending / "
             "negative / mixed-sign / duplicate ends; lists containing NaN, +-inf, subnormal, +-0; empty list) truncated at every "
             "byte offset; Piecewise<Poly0|Poly1|Poly3>::arbitrary and the external Vec<f64> decoder alone run bit-exactly model vs "
             "crate; independent Python decoder as oracle (Err exactly on empty / non-normal, else sorted normal ends, pieces drawn "
-            "in order); all three evaluation paths exercised on every returned value. non-trivial = decodes to >= 2 ends; distinct by bytes")
+            "in order); all three evaluation paths exercised on every returned value; nested Piecewise<Piecewise<Poly0|Poly1>> whose "
+            "inner functions fail to generate (empty / non-normal inner ends) at the first, a middle or no piece. non-trivial = decodes to >= 2 ends; distinct by bytes")
     TRUSTED = ["hand transcription of arbitrary 1.4.2 (fill_buffer zero padding, bool = low bit, LE integers, Vec = while bool) tied by correspondence",
                "insertion sort stands for std's stable sort (equal normal keys have equal bits)"]
     ASSUMPTIONS = ["derive(Arbitrary) for PolyK draws the fields in order with Arbitrary::arbitrary (observed by correspondence)"]
@@ -113,6 +166,31 @@ class P(Prop):
             else:
                 xs = [C.bits(rng.uniform(-6, 6)) for _ in range(6)] + [C.bits(float("inf")), C.NAN_BITS]
                 out.append(dict(op="arb_eval", ty=ty, bytes=bs, xs=xs, meta={"class": "eval/" + style}))
+        # nested functions: the piece decoder of the outer function is fallible
+        for i in range(max(40, n // 4)):
+            ty = rng.choice(["Poly0", "Poly1"])
+            npiece = G.arity(ty)
+            k = rng.randint(1, 5)
+            outer = [C.bits(x) for x in (rng.uniform(-5, 5) for _ in range(k))]
+            style = rng.choice(["ok", "ok", "first_fails", "some_fails", "truncated", "outer_bad"])
+            if style == "outer_bad":
+                outer[rng.randrange(k)] = rng.choice(specials)
+            inners = []
+            fail_at = 0 if style == "first_fails" else (rng.randrange(k) if style == "some_fails" else None)
+            for j in range(k):
+                m = rng.randint(1, 3)
+                ie = [C.bits(rng.uniform(-5, 5)) for _ in range(m)]
+                if j == fail_at:
+                    ie = [] if rng.random() < 0.5 else ie[:-1] + [rng.choice(specials)]
+                inners.append((ie, [[C.bits(rng.uniform(-3, 3)) for _ in range(npiece)] for _ in ie]))
+            bs = encode_nested(outer, inners)
+            if style == "truncated":
+                bs = bs[:rng.randint(0, len(bs))]
+            if rng.random() < 0.7:
+                out.append(dict(op="arbitrary_nested", ty=ty, bytes=bs, meta={"class": "nested/" + style}))
+            else:
+                xs = [C.bits(rng.uniform(-6, 6)) for _ in range(5)] + [C.bits(float("inf")), C.NAN_BITS]
+                out.append(dict(op="arb_eval_nested", ty=ty, bytes=bs, xs=xs, meta={"class": "nested_eval/" + style}))
         return out
 
     def coq_term(self, case, h):
@@ -120,6 +198,8 @@ class P(Prop):
             return "run_arbitrary %d %s" % (G.arity(case["ty"]), C.zlist(case["bytes"]))
         if case["op"] == "arb_vec_f64":
             return "run_arb_vec %s" % C.zlist(case["bytes"])
+        if case["op"] == "arbitrary_nested":
+            return "run_arbitrary_nested %d %s" % (G.arity(case["ty"]), C.zlist(case["bytes"]))
         return None
 
     def oracle(self, case, h):
@@ -130,6 +210,8 @@ class P(Prop):
         if op == "arb_vec_f64":
             return None
         npiece = G.arity(case["ty"])
+        if op in ("arbitrary_nested", "arb_eval_nested"):
+            return self.oracle_nested(case, h, npiece)
         ends, u64 = py_decode(bs, npiece)
         bad = (not ends) or any(not is_normal(e) for e in ends)
         r = h["r"]
@@ -159,6 +241,51 @@ class P(Prop):
             exp = [u64() for _ in range(npiece)]
             if [C.canon(x) for x in s[1:]] != [C.canon(x) for x in exp]:
                 return "pieces are not drawn in order from the remaining bytes"
+        return None
+
+    def oracle_nested(self, case, h, npiece):
+        d = Dec(case["bytes"])
+        exp = d.piecewise(lambda: d.piecewise(lambda: [d.u64() for _ in range(npiece)]))
+        r = h["r"]
+        if case["op"] == "arb_eval_nested":
+            if r[0] == 0:
+                return None if exp is None else "arbitrary rejected a well-formed nested function"
+            vals = r[1:]
+            for i in range(0, len(vals), 2):
+                if C.canon(vals[i]) != C.canon(vals[i + 1]):
+                    return "evaluation paths disagree on an Arbitrary-generated nested function: 0x%016x vs 0x%016x" % (vals[i], vals[i + 1])
+            return None
+        if r[0] == 0:
+            return None if exp is None else "arbitrary rejected a well-formed nested function"
+        # structural checks on whatever was returned
+        n = r[1]
+        if n < 1:
+            return "arbitrary returned a function with no segments"
+        pos = 2
+        got = []
+        for _ in range(n):
+            e = r[pos]
+            m = r[pos + 1]
+            pos += 2
+            inner = []
+            for _ in range(m):
+                inner.append((r[pos], r[pos + 1: pos + 1 + npiece]))
+                pos += 1 + npiece
+            if m < 1:
+                return "arbitrary returned an inner function with no segments"
+            got.append((e, inner))
+        for lvl in [got] + [g[1] for g in got]:
+            es = [C.fl(x[0]) for x in lvl]
+            if any(not is_normal(x[0]) for x in lvl):
+                return "a breakpoint is not a normal number"
+            if any(b < a for a, b in zip(es, es[1:])):
+                return "breakpoints %r are not in non-decreasing order" % es
+        if exp is None:
+            return "arbitrary returned a function although a piece failed to generate (or the ends are empty / not normal)"
+        want = [(e, [(ie, [C.canon(c) for c in p]) for ie, p in inner]) for e, inner in exp]
+        have = [(e, [(ie, [C.canon(c) for c in p]) for ie, p in inner]) for e, inner in got]
+        if [(C.fl(e), [(C.fl(ie), p) for ie, p in inner]) for e, inner in want] != [(C.fl(e), [(C.fl(ie), p) for ie, p in inner]) for e, inner in have]:
+            return "the nested function is not the one the bytes encode (pieces are drawn in order after sorting the ends)"
         return None
 
     def nontrivial_key(self, case, h):
